@@ -22,6 +22,8 @@ CLAIMED = {
          "MIR-driver rules: decision tables from discriminant switches, control dependence, dataflow, trait-surface exactness, IR join"),
  "C06": ("other", "Must-pass-through on both request deserializers (encoding lookup, bounded read with Some(N), deserialize over that buffer, end-of-input validation, each by success-edge dominance and dataflow identity), limit typestate over read_body/async_read_body as a path property on the CFG (no path from a data-adding event to an Ok return avoids the success edge of the limit check on the same accumulator), exact len > limit rejection, stream errors consumed only through `?`, error class by type argument, optional/binary/lookup tables, blocking/async twin agreement, panic inventory.", "4/C06",
          "MIR-driver rules: dominance / must-pass-through, typestate as CFG path property, dataflow identity, twin agreement"),
+ "C18": ("other", "Content-type gate dominance before the body is taken, value provenance (client_from_slice over read_body(.., None)), 204 table, blocking/async twin agreement, unlimited reassembly completeness and stream-error propagation, panic inventory; generated instance: all 112 client methods joined with the IR ask for and decode the class their return type prescribes and return the helper's result unchanged.", "4/C18",
+         "MIR-driver rules: gate dominance, dataflow provenance, table, twin agreement, IR-joined instance validation"),
 }
 NA = {
  "C11": "Content negotiation quantifies over parsed header lists and numeric q-values; its truth lives in comparator outcomes, not in the shape of the code. The structural clauses in reach are decided under C06/C04; a mirror of this implementation's iterator chain would be a brittle proxy (DESIGN.md section 4/C11).",
